@@ -6,7 +6,7 @@ import ast
 
 from ..core import Ctx, RuleResult, finding, short, walk_no_nested
 from ..model import AnalysisError, norm
-from ..rules import exc
+from ..rules import exc, fwd
 from ..rules.util import callee_name, calls_in, cfg_of, dotted, linear, node_exprs, nodes_where, single_defs
 from ..tables import C05_INFEASIBLE
 
@@ -487,7 +487,11 @@ def run(ctx: Ctx):
         rule_scan_exhaustion(ctx),
         rule_carry_over(ctx),
         rule_trie_table(ctx),
+        fwd.run_flag_fwd(p, "C05.7", ("urwid.display.escape",), "more_available", floor=6, description="every decoder that takes `more_available` is handed the caller's own flag (the nested ESC-prefixed decode, the trie readers): a unit cut at a read boundary is held back at every nesting level"),
     ]
+    from . import c11
+
+    out.append(c11.rule_dbe_ranges(ctx, "C05.8"))
     return out
 
 
@@ -496,6 +500,7 @@ from ..mutants import Mut  # noqa: E402
 _E = "urwid/display/escape.py"
 _R = "urwid/display/_raw_display_base.py"
 MUTANTS = [
+    Mut("meta-decode-never-waits", _E, "process_keyqueue", "run, remaining_codes = process_keyqueue(codes[1:], more_available)", "run, remaining_codes = process_keyqueue(codes[1:], False)", "FLAG-FWD|display.escape.process_keyqueue"),
     Mut("mouse-info-no-more-input", _E, "KeyqueueTrie.read_mouse_info", "        if len(keys) < 3:\n            if more_available:\n                raise MoreInputRequired()\n            return None", "        if len(keys) < 3:\n            return None", "PAIR|display.escape.KeyqueueTrie.read_mouse_info"),
     Mut("cursor-report-cut-before-R", _E, "KeyqueueTrie.read_cursor_position", "        if not keys[i:] and more_available:\n            raise MoreInputRequired()\n        return None", "        return None", "PAIR|display.escape.KeyqueueTrie.read_cursor_position"),
     Mut("utf8-tail-not-awaited", _E, "process_keyqueue", "            if len(codes) <= i:\n                if more_available:\n                    raise MoreInputRequired()\n", "            if len(codes) <= i:\n", "PAIR|display.escape.process_keyqueue"),
